@@ -21,6 +21,8 @@ _K.declare("KInt", ("ki", z3.IntSort()))
 _K.declare("KBool", ("kb", z3.BoolSort()))
 _K.declare("KReal", ("kr", z3.RealSort()))
 _K.declare("KNone")
+_K.declare("KPInf")
+_K.declare("KNInf")
 Key = _K.create()
 
 _R = z3.Datatype("Ref")
